@@ -231,6 +231,7 @@ def sec_classic(chk):
     chk.under_contract(ie.InversionEnabler.apply)
     chk.assume("A-CGEXACT: ConjugateGradient inside InversionEnabler / SamplingEnabler is replaced by the exact solution (C14 proves its contract)")
     ExactCG.ift = ift
+    ExactCG.simplify = False
     old = (ie.ConjugateGradient, se.ConjugateGradient)
     ie.ConjugateGradient = se.ConjugateGradient = ExactCG
     noise = SXNoise()
